@@ -1165,3 +1165,47 @@ func memBase(v ssa.Value) ssa.Value {
 	}
 	return v
 }
+
+// derivesAvoiding: like derives(v, pred, true) but never traverses through the value `stop`.
+func derivesAvoiding(v ssa.Value, pred func(ssa.Value) bool, stop ssa.Value) bool {
+	seen := map[ssa.Value]bool{stop: true}
+	var rec func(v ssa.Value, d int) bool
+	rec = func(v ssa.Value, d int) bool {
+		if v == nil || seen[v] || d > 40 {
+			return false
+		}
+		seen[v] = true
+		if pred(v) {
+			return true
+		}
+		var ops []*ssa.Value
+		if in, ok := v.(ssa.Instruction); ok {
+			ops = in.Operands(nil)
+		}
+		for _, op := range ops {
+			if *op != nil && rec(*op, d+1) {
+				return true
+			}
+		}
+		if a, ok := v.(*ssa.Alloc); ok {
+			for _, s := range storesTo(a) {
+				if rec(s.Val, d+1) {
+					return true
+				}
+			}
+			if refs := a.Referrers(); refs != nil {
+				for _, r := range *refs {
+					if ia, ok := r.(*ssa.IndexAddr); ok {
+						for _, rr := range *ia.Referrers() {
+							if st, ok := rr.(*ssa.Store); ok && rec(st.Val, d+1) {
+								return true
+							}
+						}
+					}
+				}
+			}
+		}
+		return false
+	}
+	return rec(v, 0)
+}
